@@ -30,6 +30,12 @@ func main() {
 	for c := 0; c < n; c++ {
 		one(r, c)
 	}
+	for m := 0; m < r.N(6, 80); m++ {
+		marathon(r, m)
+	}
+	r.Floor("marathon.blocks", 60)
+	r.Floor("marathon.blocks-leaving-pool-behind", 5)
+	r.Floor("marathon.follower-restarts", 5)
 	r.Floor("pools", 150)
 	r.Floor("order.calls", 1000)
 	r.Floor("order.pairs.dep", 500)
